@@ -222,6 +222,37 @@ fn judge_history(solver: Solver, hist: &[Op], st: &mut HistStats) {
             run_variant(&s, "completed", &mut viols, st);
         }
     }
+    // leave-one-out completions (short histories): everything mandatory is set except ONE field the history did not
+    // set itself - the solve must still be rejected with MissingParameters, whatever the other setters did
+    let mut r0 = Ref::default();
+    if hist.len() <= 3 && hist.iter().all(|op| r0.apply(*op, euler).is_ok()) {
+        for omit in 0..SUFFIX.len() {
+            let unset = |r: &Ref, op: &Op| match op {
+                Op::Tol(_) => r.tol.is_none() && !euler,
+                Op::Max(_) => r.max.is_none(),
+                Op::Min(_) => r.min.is_none() && !euler,
+                Op::T0(_) => r.t0.is_none(),
+                Op::T1(_) => r.t1.is_none(),
+                Op::Ic => !r.ic,
+                Op::Der => !r.der,
+            };
+            if !unset(&r0, &SUFFIX[omit]) {
+                continue;
+            }
+            let mut r = r0.clone();
+            let mut s = hist.to_vec();
+            for (k, op) in SUFFIX.iter().enumerate() {
+                if k != omit && unset(&r, op) {
+                    let mut r2 = r.clone();
+                    if r2.apply(*op, euler).is_ok() {
+                        r = r2;
+                        s.push(*op);
+                    }
+                }
+            }
+            run_variant(&s, "all-but-one", &mut viols, st);
+        }
+    }
     // keep the shortest counterexample
     if !viols.is_empty() && st.first_viol.as_ref().map_or(true, |f| f.1.len() > hist.len()) {
         st.first_viol = Some((viols, hist.to_vec()));
@@ -250,7 +281,7 @@ impl Check for Histories {
         "builder-histories"
     }
     fn rule(&self) -> String {
-        "for each of the 7 builders EVERY sequence of up to `depth` calls from a 20-letter alphabet (with_tolerance / with_maximum_dt / with_minimum_dt x {0.25, 1, 0, -1}; with_initial_time / with_ending_time x {0, 1, -1}; initial conditions; derivative), each history solved as is and completed with the missing mandatory setters; every call result, the solve result and the run on y'=0 compared with a reference model of the builder contract; states = histories, transitions = builder calls judged; signature = (builder, rejected-with / missing-set / gap classes)".into()
+        "for each of the 7 builders EVERY sequence of up to `depth` calls from a 20-letter alphabet (with_tolerance / with_maximum_dt / with_minimum_dt x {0.25, 1, 0, -1}; with_initial_time / with_ending_time x {0, 1, -1}; initial conditions; derivative), each history solved as is, completed with the missing mandatory setters, and (histories of up to 3 calls) completed with all but ONE of them, for every one; every call result, the solve result and the run on y'=0 compared with a reference model of the builder contract; states = histories, transitions = builder calls judged; signature = (builder, rejected-with / missing-set / gap classes)".into()
     }
     fn axes(&self, t: Tier) -> Value {
         json!({"alphabet": format!("{:?}", alphabet()), "depth": t.pick(5, 6), "completion_suffix": format!("{:?}", SUFFIX)})
